@@ -1,0 +1,62 @@
+//go:build verif
+
+package stateless
+
+import (
+	"context"
+
+	cmttypes "github.com/cometbft/cometbft/types"
+
+	"github.com/oasisprotocol/oasis-core/go/common/crypto/hash"
+	consensusAPI "github.com/oasisprotocol/oasis-core/go/consensus/api"
+	"github.com/oasisprotocol/oasis-core/go/consensus/api/transaction"
+	"github.com/oasisprotocol/oasis-core/go/consensus/cometbft/api"
+)
+
+// Exported aliases of the package-private verification functions for the
+// verification harness (build tag "verif" only).
+
+// VerifVerifyBlock is verifyBlock.
+func VerifVerifyBlock(blk *consensusAPI.Block, lb *cmttypes.LightBlock) error {
+	return verifyBlock(blk, lb)
+}
+
+// VerifVerifyBlockResults is verifyBlockResults.
+func VerifVerifyBlockResults(results *consensusAPI.BlockResults, resultsHash []byte, lb *cmttypes.LightBlock) (*api.BlockResultsMeta, error) {
+	return verifyBlockResults(results, resultsHash, lb)
+}
+
+// VerifVerifyTransactions is verifyTransactions.
+func VerifVerifyTransactions(txs [][]byte, lb *cmttypes.LightBlock) error {
+	return verifyTransactions(txs, lb)
+}
+
+// VerifTransactionsWithProofs is transactionsWithProofs.
+func VerifTransactionsWithProofs(txs [][]byte) *consensusAPI.TransactionsWithProofs {
+	return transactionsWithProofs(txs)
+}
+
+// VerifVerifyTransactionProof is verifyTransactionProof.
+func VerifVerifyTransactionProof(proof *transaction.Proof, tx *transaction.SignedTransaction, lb *cmttypes.LightBlock) error {
+	return verifyTransactionProof(proof, tx, lb)
+}
+
+// VerifStateRootFromBlockTxs is stateRootFromBlockTxs.
+func VerifStateRootFromBlockTxs(txs [][]byte) (hash.Hash, error) {
+	return stateRootFromBlockTxs(txs)
+}
+
+// VerifStateRootFromMetaTx is stateRootFromMetaTx.
+func VerifStateRootFromMetaTx(metaTx []byte) (hash.Hash, error) {
+	return stateRootFromMetaTx(metaTx)
+}
+
+// VerifVerifyNextValidators is (*Core).verifyNextValidators.
+func (c *Core) VerifVerifyNextValidators(validators *consensusAPI.Validators, lb *cmttypes.LightBlock) error {
+	return c.verifyNextValidators(validators, lb)
+}
+
+// VerifVerifyParameters is (*Core).verifyParameters.
+func (c *Core) VerifVerifyParameters(ctx context.Context, params *consensusAPI.Parameters, lb *cmttypes.LightBlock) error {
+	return c.verifyParameters(ctx, params, lb)
+}
